@@ -34,6 +34,7 @@ func checkC14(ctx *Ctx, r *Report) {
 	c14ValueGuards(ctx, r)
 	c14DateTimeFormatter(ctx, r)
 	c14FourthRound(ctx, r)
+	c02GoRuntimeDefines(ctx, r)
 }
 
 func c14FreshGenerator(ctx *Ctx, r *Report) {
